@@ -296,6 +296,12 @@ def r5(ctx, R):
             # X.decode(...) where X is (a local bound to) <reader>.read(*args)
             if isinstance(v, ast.Call) and isinstance(v.func, ast.Attribute) and v.func.attr == "decode":
                 src = deref(ctx, f, v.func.value)
+                quals = {k.methods[m] for k in stream_classes(ctx) for m in ("read", "readline") if m in k.methods}
+                U = _Units(ctx, f, quals)
+                raw_reads = [x for x in calls_in(f.node) if U._raw_read(x)]
+                if not (isinstance(src, ast.Call) and isinstance(src.func, ast.Attribute) and src.func.attr == "read") and U.unit(v.func.value) == BYT and raw_reads:
+                    # bytes accumulated over several reads of the underlying stream, decoded once at the end
+                    src = raw_reads[0]
                 if isinstance(src, ast.Call) and isinstance(src.func, ast.Attribute) and src.func.attr == "read":
                     passes = any(isinstance(a, ast.Starred) for a in src.args) or any(isinstance(a, ast.Name) and a.id in f.params for a in src.args)
                     if passes:
@@ -355,9 +361,148 @@ def r6(ctx, R):
             R.violation("C16.R6", fr.short, "scheme prefixes", loc(fr, fr.node), f"path_to_uri adds {sorted(prefixes)} but path_from_uri strips {got}")
 
 
+# ------------------------------------------------------------------ R7: units
+STR, BYT, NCH, NBY, UNK = "str", "bytes", "n_chars", "n_bytes", "?"
+
+
+class _Units:
+    """Flow-insensitive unit inference inside one function of the framing module:
+    text vs bytes objects, character counts vs byte counts."""
+
+    def __init__(self, ctx, f, stream_quals):
+        self.ctx, self.f = ctx, f
+        self.stream_quals = stream_quals
+        self.assigns = {}
+        for n in ctx.m.walk_own(f.node):
+            if isinstance(n, ast.Assign):
+                for t in n.targets:
+                    if isinstance(t, ast.Name):
+                        self.assigns.setdefault(t.id, []).append(n.value)
+            elif isinstance(n, ast.AugAssign) and isinstance(n.target, ast.Name):
+                self.assigns.setdefault(n.target.id, []).append(n.value)
+            elif isinstance(n, ast.AnnAssign) and isinstance(n.target, ast.Name) and n.value is not None:
+                self.assigns.setdefault(n.target.id, []).append(n.value)
+        # parameters handed to the underlying binary stream's read are byte counts
+        self.byte_params = set()
+        for c in calls_in(f.node):
+            if self._raw_read(c):
+                for a in c.args:
+                    a = a.value if isinstance(a, ast.Starred) else a
+                    if isinstance(a, ast.Name) and a.id in f.params:
+                        self.byte_params.add(a.id)
+        # ... and so are locals handed to a stream wrapper's read (the wrapper passes them on)
+        self.wrapper_reads = []
+        if f.qual not in stream_quals:
+            for c in calls_in(f.node):
+                if isinstance(c.func, ast.Attribute) and c.func.attr == "read" and any(q in stream_quals for q in ctx.r.resolve_call(f, c)[1]):
+                    self.wrapper_reads.append(c)
+                    for a in c.args:
+                        if isinstance(a, ast.Name):
+                            self.byte_params.add(a.id)
+        self._busy = set()
+
+    def _raw_read(self, c):
+        """<self>.<field>.read/readline(...) on something that is not a class of the repository"""
+        if not (isinstance(c.func, ast.Attribute) and c.func.attr in ("read", "readline", "recv", "read1", "readinto")):
+            return False
+        if self.f.qual not in self.stream_quals or not isinstance(c.func.value, ast.Attribute):
+            return False
+        kind, qs = self.ctx.r.resolve_call(self.f, c)
+        return kind == "by_name" or not [q for q in qs if q in self.stream_quals]
+
+    def unit(self, e):
+        if isinstance(e, ast.Constant):
+            return STR if isinstance(e.value, str) else BYT if isinstance(e.value, bytes) else UNK
+        if isinstance(e, ast.JoinedStr):
+            return STR
+        if isinstance(e, ast.Call):
+            fn = e.func
+            if isinstance(fn, ast.Attribute):
+                if fn.attr == "decode":
+                    return STR
+                if fn.attr == "encode":
+                    return BYT
+                if self._raw_read(e):
+                    return BYT
+                if fn.attr in ("read", "readline"):
+                    kind, qs = self.ctx.r.resolve_call(self.f, e)
+                    if (kind != "by_name" or self.f.qual not in self.stream_quals) and any(q in self.stream_quals for q in qs):
+                        return STR  # the wrappers return decoded text (C16.R5)
+                if fn.attr in ("strip", "rstrip", "lstrip", "lower", "upper", "join", "format", "replace"):
+                    return self.unit(fn.value)
+            if isinstance(fn, ast.Name):
+                if fn.id == "len" and len(e.args) == 1:
+                    u = self.unit(e.args[0])
+                    return NCH if u == STR else NBY if u == BYT else UNK
+                if fn.id == "str":
+                    return STR
+                if fn.id in ("bytes", "bytearray"):
+                    return BYT
+            if unparse(fn) == "json.dumps":
+                return STR
+            return UNK
+        if isinstance(e, ast.BinOp) and isinstance(e.op, (ast.Add, ast.Sub)):
+            a, b = self.unit(e.left), self.unit(e.right)
+            if a == b:
+                return a
+            if UNK in (a, b):
+                return a if b == UNK else b
+            return UNK
+        if isinstance(e, ast.Subscript) and isinstance(e.slice, ast.Slice):
+            return self.unit(e.value)
+        if isinstance(e, ast.Name):
+            if e.id in self.byte_params:
+                return NBY
+            if e.id in self._busy:
+                return UNK
+            self._busy.add(e.id)
+            try:
+                us = {self.unit(v) for v in self.assigns.get(e.id, [])} - {UNK}
+            finally:
+                self._busy.discard(e.id)
+            return us.pop() if len(us) == 1 else UNK
+        return UNK
+
+
+def r7(ctx, R):
+    R.rule("C16.R7", "byte counts and character counts are never mixed on the reading side: what is compared with, subtracted from or passed as the requested length is measured on bytes, not on decoded text", floor=2, confirmed=3)
+    quals = set()
+    for c in stream_classes(ctx):
+        quals |= {c.methods[m] for m in ("read", "readline") if m in c.methods}
+    conn = connection_class(ctx)
+    funcs = [ctx.m.funcs[q] for q in sorted(quals)]
+    funcs += [ctx.m.funcs[q] for q in conn.methods.values() if any(isinstance(c.func, ast.Attribute) and c.func.attr in ("read", "readline") for c in calls_in(ctx.m.funcs[q].node))]
+    for f in funcs:
+        U = _Units(ctx, f, quals)
+        bad = []
+        for n in ctx.m.walk_own(f.node):
+            pairs = []
+            if isinstance(n, ast.Compare) and len(n.comparators) == 1:
+                pairs.append((n.left, n.comparators[0]))
+            elif isinstance(n, ast.BinOp) and isinstance(n.op, (ast.Sub, ast.Add)):
+                pairs.append((n.left, n.right))
+            for a, b in pairs:
+                if {U.unit(a), U.unit(b)} == {NCH, NBY}:
+                    bad.append((n, f"`{unparse(n)}` relates a character count to a byte count"))
+            if isinstance(n, ast.Call) and U._raw_read(n):
+                for a in n.args:
+                    if any(U.unit(x) == NCH for x in ast.walk(a) if isinstance(x, (ast.Call, ast.Name))):
+                        bad.append((n, f"`{unparse(n)}` requests a number of bytes computed from a character count"))
+            if isinstance(n, ast.Subscript) and isinstance(n.slice, ast.Slice) and U.unit(n.value) == STR:
+                for b in (n.slice.lower, n.slice.upper):
+                    if b is not None and U.unit(b) == NBY:
+                        bad.append((n, f"`{unparse(n)}` cuts decoded text at a byte count"))
+        if bad:
+            for n, msg in bad[:3]:
+                R.violation("C16.R7", f.short, key(f, ctx.m.enclosing_stmt(n)), loc(f, n), msg + ": for a body with non-ASCII characters the two differ, so the reader runs into the next frame (or stops short of the end of this one)")
+        else:
+            R.ok("C16.R7", f.short, "units", loc(f, f.node), f"byte-count parameters: {sorted(U.byte_params)}")
+
+
 def run(ctx, R):
     r1_r2(ctx, R)
     r3(ctx, R)
     r4(ctx, R)
     r5(ctx, R)
     r6(ctx, R)
+    r7(ctx, R)
